@@ -117,7 +117,7 @@ def read_events(path):
 
 
 def run_parser(datadir, cb, dump=None, coin=None, start=None, end=None, verify=False, env=None, trace=None,
-               fsize=None, nofile=None, timeout=60, threads=None, verbose=0, read_files=True, extra_args=(),
+               fsize=None, nofile=None, timeout=60, threads=None, verbose=0, read_files=True, extra_args=(), mkdump=True,
                abort_at=None, skip=None):
     """run the hooked binary; cb in csvdump|unspentcsvdump|balances|simplestats|opreturn"""
     args = [BIN, '-d', datadir]
@@ -134,7 +134,8 @@ def run_parser(datadir, cb, dump=None, coin=None, start=None, end=None, verify=F
     args += [cb]
     if cb in ('csvdump', 'unspentcsvdump', 'balances'):
         assert dump is not None
-        os.makedirs(dump, exist_ok=True)
+        if mkdump:
+            os.makedirs(dump, exist_ok=True)
         args += [dump]
     e = dict(os.environ)
     for k in list(e):
